@@ -70,6 +70,9 @@ pub enum Ev {
     Stall { conn: usize, what: String },
     /// Polling a task whose waker had not fired produced an observable effect.
     SweepProgress { task: TaskRef, what: String },
+    /// Online identifier check of a long history (C11).
+    IdViolation { class: String, what: String },
+    IdHistoryDone { ops: u32, wraps: u32, max_outstanding: usize },
     SettleOverrun,
     ClockAdvanced { secs: u64 },
 }
@@ -1165,6 +1168,13 @@ impl World {
                     None => skip(self, "no subscribe response"),
                 }
             }
+            Step::IdHistory { seed, ops, clones, max_outstanding } => {
+                if self.phase() != Phase::Running || !self.is_live(TaskRef::Ctx) {
+                    skip(self, "client is not serving");
+                    return;
+                }
+                self.id_history(*seed, *ops, *clones, *max_outstanding);
+            }
             Step::AdvanceClock(secs) => {
                 self.clock += Duration::from_secs(*secs);
                 self.clock_secs += *secs;
@@ -1276,6 +1286,198 @@ impl World {
         self.settle(0xF1A1);
         self.sweep(true);
         self.settle(0xF1A2);
+    }
+
+    /// Drops finished tasks and the recorded history so far (long C11 histories).
+    fn compact(&mut self, keep: &mut Vec<Ev>) {
+        let done: Vec<TaskRef> = self.tasks.iter().filter(|(_, t)| t.status != TaskStatus::Live).map(|(r, _)| *r).collect();
+        for r in done {
+            if let TaskRef::Op(i) = r {
+                self.ops.remove(&i);
+                self.op_pid.remove(&i);
+                self.op_subid.remove(&i);
+                self.op_first_poll.remove(&i);
+            }
+            self.tasks.remove(&r);
+        }
+        let mut ev = self.shared.events.borrow_mut();
+        for e in ev.drain(..) {
+            match e {
+                Ev::PollEnd { res: PollRes::Panicked(_), .. } | Ev::IdViolation { .. } | Ev::RunReturned { .. } | Ev::Stall { .. } | Ev::DropPanicked { .. } => keep.push(e),
+                _ => {}
+            }
+        }
+        self.wire.clear();
+        self.inbound.clear();
+        self.shared.sub_rsps.borrow_mut().clear();
+        if let Some(c) = self.conn() {
+            let mut p = self.pipes[c].borrow_mut();
+            let cut = self.parse_pos[c];
+            p.wire.drain(..cut);
+            p.wmarks.clear();
+            self.parse_pos[c] = 0;
+        }
+    }
+
+    fn id_history(&mut self, seed: u64, ops: u32, clones: usize, max_outstanding: usize) {
+        use std::collections::BTreeMap as Map;
+        let mut rng = Rng::new(seed ^ 0x1d1d_1d1d);
+        let mut kept: Vec<Ev> = Vec::new();
+        // packet id -> (op, kind: 1 publish1, 2 publish2, 3 subscribe, 4 unsubscribe, stage)
+        let mut outstanding: Map<u16, (usize, u8, u8, u32)> = Map::new();
+        let mut order: VecDeque<u16> = VecDeque::new();
+        let mut sub_ids: BTreeSet<u32> = BTreeSet::new();
+        let mut last_id: Option<u16> = None;
+        let mut wraps = 0u32;
+        let mut max_seen = 0usize;
+        let mut next_op = self.ops.keys().next_back().map(|k| k + 1).unwrap_or(0);
+        let mut wire_seen = 0usize;
+        let clones = clones.clamp(1, self.handles.len());
+        let mut violated = false;
+        for n in 0..ops {
+            if violated || !self.is_live(TaskRef::Ctx) || self.phase() != Phase::Running {
+                break;
+            }
+            // submit one identifier-consuming operation
+            let kind = 1 + rng.below(4) as u8;
+            let op = next_op;
+            next_op += 1;
+            let spec = match kind {
+                1 | 2 => OpSpec::Publish(PublishSpec { qos: Some(kind), topic: Some(format!("t/{op}")), payload: Some(vec![]), ..Default::default() }),
+                3 => OpSpec::Subscribe(SubscribeSpec { filters: vec![(format!("f/{op}"), SubOptSpec::default())], user: vec![] }),
+                _ => OpSpec::Unsubscribe(UnsubscribeSpec { filters: vec![format!("u/{op}")], user: vec![] }),
+            };
+            let handle = rng.usize_below(clones);
+            if let Some(h) = self.handles[handle].as_ref() {
+                self.ops.insert(op, OpInfo { handle, spec: spec.clone(), step: self.steps_done });
+                let fut = op_script(h.clone(), op, spec, self.shared.clone());
+                self.spawn(TaskRef::Op(op), Box::pin(fut));
+            }
+            self.settle(rng.next_u64());
+            // inspect what reached the wire
+            while wire_seen < self.wire.len() {
+                let w = &self.wire[wire_seen];
+                wire_seen += 1;
+                let (pid, k): (u16, u8) = match &w.pkt {
+                    Packet::Publish(p) if p.qos > 0 => (p.pid.unwrap(), p.qos),
+                    Packet::Subscribe(s) => {
+                        for sid in s.props.varints(rc::pid::SUBSCRIPTION_ID) {
+                            if !sub_ids.insert(sid) {
+                                self.shared.push(Ev::IdViolation { class: "C11/duplicate-subscription-id".into(), what: format!("subscription identifier {sid} used twice (operation #{n})") });
+                                violated = true;
+                            }
+                        }
+                        (s.pid, 3)
+                    }
+                    Packet::Unsubscribe(u) => (u.pid, 4),
+                    Packet::Pubrel(a) => {
+                        if let Some(e) = outstanding.get_mut(&a.pid) {
+                            e.2 = 2; // PUBREL on the wire
+                        }
+                        continue;
+                    }
+                    _ => continue,
+                };
+                if let Some(prev) = last_id {
+                    if pid < prev {
+                        wraps += 1;
+                    }
+                }
+                last_id = Some(pid);
+                if pid == 0 {
+                    self.shared.push(Ev::IdViolation { class: "C11/zero-id".into(), what: format!("packet identifier 0 (operation #{n})") });
+                    violated = true;
+                }
+                if let Some(prev) = outstanding.get(&pid).filter(|prev| n - prev.3 < 65_000) {
+                    // (an operation left outstanding for >= 65000 allocations would be the
+                    // generator breaking the property's own proviso, not the library)
+                    self.shared.push(Ev::IdViolation { class: "C11/duplicate-id/single-task".into(), what: format!("packet identifier {pid} allocated to operation #{n} while operation {} still holds it", prev.0) });
+                    violated = true;
+                }
+                let m = marker_of(&w.pkt).unwrap_or(usize::MAX);
+                outstanding.insert(pid, (m, k, 0, n));
+                order.push_back(pid);
+            }
+            max_seen = max_seen.max(outstanding.len());
+            // acknowledge: keep at most `max_outstanding` in flight, in random order
+            let mut budget = if outstanding.len() > max_outstanding { outstanding.len() - max_outstanding } else { rng.usize_below(2) };
+            let mut guard = 0;
+            while budget > 0 && !outstanding.is_empty() && guard < 10_000 {
+                guard += 1;
+                let idx = if rng.coin() { 0 } else { rng.usize_below(order.len()) };
+                let pid = order[idx];
+                let Some(&(_, k, stage, _)) = outstanding.get(&pid) else {
+                    order.remove(idx);
+                    continue;
+                };
+                let (pkt, done) = match (k, stage) {
+                    (1, _) => (Packet::Puback(rc::Ack { pid, reason: 0, props: Props::new() }), true),
+                    (2, 0) => {
+                        outstanding.get_mut(&pid).unwrap().2 = 1;
+                        (Packet::Pubrec(rc::Ack { pid, reason: 0, props: Props::new() }), false)
+                    }
+                    (2, 1) => {
+                        // PUBREL not yet seen: let the client run
+                        self.settle(rng.next_u64());
+                        while wire_seen < self.wire.len() {
+                            if let Packet::Pubrel(a) = &self.wire[wire_seen].pkt {
+                                if let Some(e) = outstanding.get_mut(&a.pid) {
+                                    e.2 = 2;
+                                }
+                            }
+                            wire_seen += 1;
+                        }
+                        if outstanding.get(&pid).map(|e| e.2) != Some(2) {
+                            // give up on this one for now
+                            budget -= 1;
+                            continue;
+                        }
+                        (Packet::Pubcomp(rc::Ack { pid, reason: 0, props: Props::new() }), true)
+                    }
+                    (2, _) => (Packet::Pubcomp(rc::Ack { pid, reason: 0, props: Props::new() }), true),
+                    (3, _) => (Packet::Suback(rc::SubAck { pid, props: Props::new(), reasons: vec![0] }), true),
+                    _ => (Packet::Unsuback(rc::SubAck { pid, props: Props::new(), reasons: vec![0] }), true),
+                };
+                let bytes = rc::encode_form(&pkt, Form::Shortest);
+                if let Some(c) = self.conn() {
+                    let pipe = self.pipes[c].clone();
+                    let mut p = pipe.borrow_mut();
+                    p.inbound_len += bytes.len();
+                    p.delivered += bytes.len();
+                    p.avail.push_back(bytes);
+                    if let Some(w) = p.rwaker.take() {
+                        w.wake();
+                    }
+                }
+                if done {
+                    outstanding.remove(&pid);
+                    order.remove(idx);
+                    budget -= 1;
+                }
+                self.settle(rng.next_u64());
+            }
+            if n % 512 == 511 {
+                // nothing written so far may be lost: only PUBRELs can be unseen here
+                while wire_seen < self.wire.len() {
+                    if let Packet::Pubrel(a) = &self.wire[wire_seen].pkt {
+                        if let Some(e) = outstanding.get_mut(&a.pid) {
+                            e.2 = 2;
+                        }
+                    }
+                    wire_seen += 1;
+                }
+                self.compact(&mut kept);
+                wire_seen = 0;
+            }
+        }
+        self.compact(&mut kept);
+        {
+            let mut ev = self.shared.events.borrow_mut();
+            let tail: Vec<Ev> = ev.drain(..).collect();
+            ev.extend(kept);
+            ev.extend(tail);
+        }
+        self.shared.push(Ev::IdHistoryDone { ops, wraps, max_outstanding: max_seen });
     }
 
     pub fn history_hash(&self) -> u64 {
